@@ -39,6 +39,17 @@ impl IntCfg {
         (token, nbits, bits)
     }
 
+    /// Upper bound of the tokens of all values <= maxv (tokens are not monotone
+    /// in the value when low bits are kept in the token).
+    pub fn max_token_upto(&self, maxv: u32) -> u32 {
+        let split = 1u32 << self.split_exponent;
+        if maxv < split {
+            return maxv;
+        }
+        let n = floor_log2(maxv);
+        split + ((n - self.split_exponent) << (self.msb + self.lsb)) + ((1u32 << (self.msb + self.lsb)) - 1)
+    }
+
     pub fn write(&self, w: &mut BitWriter, log_alpha: u32) {
         assert!(self.split_exponent <= log_alpha);
         w.bits(self.split_exponent as u64, bits_for(log_alpha));
@@ -63,11 +74,11 @@ impl IntCfg {
                 (msb, lsb)
             };
             let c = IntCfg { split_exponent: se, msb, lsb };
-            if c.tokenize(maxv).0 < limit {
+            if c.max_token_upto(maxv) < limit {
                 return Some(c);
             }
         }
-        if IntCfg::SIMPLE.tokenize(maxv).0 < limit {
+        if IntCfg::SIMPLE.max_token_upto(maxv) < limit {
             return Some(IntCfg::SIMPLE);
         }
         None
@@ -327,7 +338,7 @@ impl EntropyCode {
                 None => alphabet,
             };
             if let Some(l) = lz77 {
-                if has_copy && l.min_symbol + l.len_cfg.tokenize(max_len_val).0 >= alphabet {
+                if has_copy && l.min_symbol + l.len_cfg.max_token_upto(max_len_val) >= alphabet {
                     continue;
                 }
             }
